@@ -35,7 +35,7 @@ N = {"quick": 14000, "thorough": 200000}
 BUDGET = {"quick": 50, "thorough": 420}
 RULE = "index k -> one lattice cell (+ path direct / http-proxy tunnel / https-proxy tunnel, + optional handshake step fault). Non-trivial = cell is must-reject or unvalidated; distinct = distinct cell tuple."
 ASSUMPTIONS = [
-    "CERT_OPTIONAL cells and caller-supplied contexts that contradict cert_reqs are 'either' for rejection (only 'nothing sent before an error' is demanded)",
+    "caller-supplied contexts that contradict cert_reqs are 'either' for rejection (only 'nothing sent before an error' is demanded); CERT_OPTIONAL must reject a failing peer like REQUIRED (a TLS server always presents a certificate), acceptance of a good one is not demanded",
     "must-accept cells that fail are counted (vacuity guard), not reported as C07 violations",
     "pyOpenSSL backend: direct and http-proxy-tunnel paths only (that backend offers no TLS-in-TLS); ca_cert_data with pyOpenSSL 26.4 fails closed before the handshake and is only counted",
 ]
@@ -210,7 +210,7 @@ def reference(cell) -> tuple[str, list[str]]:
     pin = cell["assert_fingerprint"]
     if pin in ("wrong", "badlen"):
         reasons.append("fingerprint")
-    if eff == "CERT_REQUIRED" and not chain_ok:
+    if eff in ("CERT_REQUIRED", "CERT_OPTIONAL") and not chain_ok:
         reasons.append("chain")
     name = host
     if cell["server_hostname"] == "right":
@@ -227,7 +227,9 @@ def reference(cell) -> tuple[str, list[str]]:
     if contradict:
         return "either", reasons
     if eff == "CERT_OPTIONAL":
-        return ("must_reject", reasons) if "fingerprint" in reasons else ("either", reasons)
+        # on the client side OPTIONAL verifies whatever certificate the server presents (and a TLS server always presents one) exactly
+        # like REQUIRED, and urllib3 matches the name itself: a failing peer must be rejected; acceptance of a good one is not demanded
+        return ("must_reject", reasons) if reasons else ("either", reasons)
     if ctxk == "nocheck" and "hostname" in reasons and reasons == ["hostname"]:
         # a caller's context with check_hostname off: urllib3 still matches the name itself when verify_mode != NONE
         return "must_reject", reasons
